@@ -46,6 +46,18 @@ func c05World(t *testing.T, run *h.Run) (int64, int64) {
 	scs := []scOpt{
 		timeout,
 		mk("S3-timed-auto-restart", "auto", &w.Alpha{PodDev: []string{"restart:1", "restart:3"}}),
+		// a pod with two containers restarting at different moments: the last restart is the later one, whichever container
+		func() scOpt {
+			o := mk("S3-timed-auto-restart-two-containers", "auto", &w.Alpha{PodDev: []string{"restart@0:1", "restart@1:1"}})
+			tb2 := w.Tpl("B+side")
+			s2 := md5.Sum([]byte("ns/" + w.TemplateHash(&tb2)))
+			crs2 := "foo-" + hex.EncodeToString(s2[:])[:6]
+			o.tpls = []string{"A", "B+side"}
+			o.alpha.OnlyERS = []string{crs2}
+			o.first = []w.Event{evb("setTemplate", edsKey, "B+side"), ev("R_eds", edsKey), ev("R_eds", edsKey), ev("R_ers", "ns/"+crs2), ev("ready", "ns/"+crs2+"-n1")}
+			o.budget = 2
+			return o
+		}(),
 		mk("S3-timed-auto-commands", "auto", &w.Alpha{Kubectl: []string{"canary-pause", "canary-unpause", "canary-validate", "canary-fail"}}),
 		mk("S3-timed-fail-overtakes", "auto", &w.Alpha{MidCmds: []string{"canary-fail"}}),
 		// a failed canary whose rollback is interrupted between its two writes (the spec update is rejected or lost), or whose
@@ -72,6 +84,6 @@ func c05World(t *testing.T, run *h.Run) (int64, int64) {
 			break
 		}
 	}
-	requireAntecedents(run, "C05/active-changed", "C05/fail-overtook-reconcile")
+	requireAntecedents(run, "C05/active-changed", "C05/fail-overtook-reconcile", "C05/restart-recorded")
 	return states, trans
 }
